@@ -2,7 +2,8 @@
 
 All programs p1 op p2 ... pn (op in ; && ||, each pi = `vh-mark i s $?` exiting s) up to n = 4
 (thorough 6) with s in {0,1}, all programs up to n = 2 (3) with s in {0,1,2,255}, decoy variants
-(quoted / escaped operators as extra arguments) and two-stage pipelines as pi, run by the real binary
+(quoted / escaped operators as extra arguments), spellings (no blanks around the operators, trailing `;`, extra blanks)
+and two-stage pipelines as pi, run by the real binary
 with -c and as a script file; oracle = reference interpreter (status register, skip leaves it unchanged):
 exact record sequence, every $? probe, process exit status. Second layer: members of ten kinds (external, assignment
 only, builtin succeeding / failing, cd, export, command not found, pipeline ending in a builtin): all programs of 1..2
@@ -41,7 +42,7 @@ def programs(nmax, statuses):
 def render(ops, stats, variant):
     parts = []
     for i, s in enumerate(stats):
-        if variant == 'plain':
+        if variant in ('plain', 'tight', 'trailing-semicolon', 'wide'):
             p = 'vh-mark %d %d $?' % (i + 1, s)
         elif variant.startswith('decoy'):
             d = DECOYS[int(variant[5:])]
@@ -51,6 +52,12 @@ def render(ops, stats, variant):
         if ops[i] is not None:
             parts.append(ops[i])
         parts.append(p)
+    if variant == 'tight':          # no blanks around the operators
+        return ''.join(parts)
+    if variant == 'trailing-semicolon':
+        return ' '.join(parts) + ' ;'
+    if variant == 'wide':           # leading / repeated blanks
+        return '  ' + '   '.join(parts) + '  '
     return ' '.join(parts)
 
 
@@ -206,6 +213,12 @@ def run(rep, tier):
         for k in range(len(DECOYS)):
             cases.append((ops, stats, 'decoy%d' % k, 'c'))
         cases.append((ops, stats, 'pipe', 'c'))
+    # spellings: operators without blanks, a trailing `;`, leading and repeated blanks
+    for ops, stats in programs(4 if tier == 'thorough' else 3, (0, 1)):
+        for v in ('tight', 'trailing-semicolon', 'wide'):
+            cases.append((ops, stats, v, 'c'))
+            if len(stats) <= 2:
+                cases.append((ops, stats, v, 'script'))
     results = common.pmap(run_case, cases, chunk=8)
     states = set()
     for case, line, kind, exp_recs, exp_status, obs, status in results:
